@@ -6,9 +6,11 @@ from pyvaporation.optimizer import Measurements, PervaporationFunction, find_bes
 from pyvaporation.optimizer.optimizer import Measurement
 from common import rel_close
 import gens
+import pvtools
 
 FAMILIES = ['fit']
 BRIDGES = ['br_pfcall_', 'br_pfmul', 'br_from_array_', 'br_bestfit_', 'br_fit_', 'br_vle_']
+EXTRA_TARGETS = ['Model/NumCheck.vo']
 PROPS_V = 'Props/C16.v'
 BUDGET = {'quick': 14, 'thorough': 200}
 ORACLE_RULE = ('measurement sets of 3..12 points at 1..3 temperatures with magnitudes 1e-8..1, orders n,m in 0..2, with/without zero points, both components; '
@@ -68,6 +70,12 @@ def oracle(rng, tier):
             yield {'kind': 'evaluation', 'case': {'coeffs': before, 'x': x, 't': t, 'c': c}, 'ok': ok, 'detail': 'evaluation / multiplication law'}
             continue
         data, scale = random_data(rng)
+        real = pvtools.real_curve_sets()
+        if real and rng.random() < 0.25:
+            # measured multi-temperature data: the optimiser's own failure path (evaluation budget exhausted) is reached here
+            name, cset = rng.choice(real)
+            data = (Measurements.from_diffusion_curves_second if rng.random() < 0.5 else Measurements.from_diffusion_curves_first)(cset)
+            scale = 'measured:' + name
         iz = rng.random() < 0.5
         idx = rng.choice([0, 1])
         case = {'points': snap(data)[0], 'include_zero': iz, 'component_index': idx, 'scale': scale}
@@ -103,6 +111,14 @@ def oracle(rng, tier):
                 ok, detail = False, 'repeated best-fit search on the same object differs'
             case.update({'n': n, 'm': m})
             yield {'kind': 'best_fit:%s' % ('zero' if iz else 'plain'), 'case': case, 'ok': ok, 'detail': detail}
+
+
+def correspondence(tier, seed):
+    import corr_numeric
+    budget = {'fit': 30}
+    if tier == 'thorough':
+        budget = {k: v * 12 for k, v in budget.items()}
+    return corr_numeric.run(seed, budget, nmax=30 if tier == 'quick' else 200, tag='C16')
 
 
 def replay(rep):
